@@ -454,6 +454,17 @@ func checkC03(w *World, r *Recorder) propInfo {
 	remapRule(r, "C19-Y4", "C03-S4")
 	auditCoseSign(w, r, "C03-audit")
 	auditCoseMarshal(w, r, "C03-audit")
+	// S5: the payload kept in the signing Evidence and the token returned are fresh memory (a reused buffer would let a later encode change the signed payload)
+	for _, n := range []string{"EncodeClaimsToCBOR", "ValidateAndEncodeClaimsToCBOR"} {
+		if fn := w.Root.Func(n); fn != nil {
+			ruleResultFresh(w, r, "C03-S5", fn, n, 0)
+		}
+	}
+	for _, n := range []string{"Sign", "ValidateAndSign"} {
+		if fn := w.findFunc("Evidence", n); fn != nil {
+			ruleResultFresh(w, r, "C03-S5", fn, "Evidence."+n, 0)
+		}
+	}
 	r.Floor("C03-S4", 1)
 	r.Floor("C03-S1", 2)
 	r.Floor("C03-S2", 2)
@@ -604,6 +615,13 @@ func checkC19(w *World, r *Recorder) propInfo {
 	r.Floor("C19-Y2", 3)
 	r.Floor("C19-Y3", 2)
 	r.Floor("C19-Y4", 2)
+	// Y6: two signings give two independent tokens — the token returned is
+	// fresh memory, not a buffer the Evidence (or the package) keeps and reuses
+	for _, name := range []string{"Sign", "ValidateAndSign"} {
+		if fn := w.findFunc("Evidence", name); fn != nil {
+			ruleResultFresh(w, r, "C19-Y6", fn, "Evidence."+name, 0)
+		}
+	}
 	r.Floor("C19-Y5", 1)
 	return info
 }
@@ -640,6 +658,10 @@ func c19Claims(w *World, r *Recorder, fn *ssa.Function, p Path, pkey, st string,
 // ---------------------------------------------------------------- C20 ----
 
 func checkC20(w *World, r *Recorder) propInfo {
+	regName := "psatoken.profilesRegister"
+	if g := registerGlobal(w); g != nil {
+		regName = globalName(g)
+	}
 	info := propInfo{
 		Explanation: "Decided part: (U1) every path of Evidence.UnmarshalCOSE that can succeed contains exactly one call of the *tagged* (*cose.Sign1Message).UnmarshalCBOR — no other go-cose decode entry (UntaggedSign1Message, SignMessage, …) appears on any path — applied to the caller's whole, unsliced buffer, with a nil result; its failure makes the method fail; (U2) the claims are then decoded with DecodeClaimsFromCBOR from that message's Payload and a decode error makes the method fail; DecodeEvidenceFromCOSE returns a nil Evidence on every failing path; (U3) DecodeClaimsFromCBOR succeeds only after the package decode mode decoded the payload into the profile-selector struct and into the claims object, both with nil error, and the profile was found in the register. Thorough tier: audit of the pinned go-cose source for the tag-18 prefix test, 4-element typed array, and empty-signature rejection. Not decided: the CBOR library's rejection of each malformed form (a library fact).",
 		Rule:        "one obligation per (rule, path)",
@@ -750,7 +772,7 @@ func checkC20(w *World, r *Recorder) propInfo {
 				}
 				hasOK := false
 				for a, b := range p.St.atoms {
-					if strings.HasPrefix(a, "ok:lookup(g:psatoken.profilesRegister") && b {
+					if strings.HasPrefix(a, "ok:lookup(g:"+regName) && b {
 						hasOK = true
 					}
 				}
